@@ -310,7 +310,7 @@ func (cw *chunkWriter) writeHeader(p []byte) {
 	// write non-zero bytes.  If it's actually 0 bytes and the
 	// handler never looked at the Request.Method, we just don't
 	// send a Content-Length header.
-	if w.handlerDone && w.status != bfe_http.StatusNotModified && header.GetDirect("Content-Length") == "" && (!isHEAD || len(p) > 0) {
+	if w.handlerDone && bodyAllowedForStatus(w.status) && header.GetDirect("Content-Length") == "" && (!isHEAD || len(p) > 0) {
 		w.contentLength = int64(len(p))
 		setHeader.contentLength = strconv.AppendInt(cw.res.clenBuf[:0], int64(len(p)), 10)
 	}
@@ -369,6 +369,13 @@ func (cw *chunkWriter) writeHeader(p []byte) {
 		for _, k := range []string{"Content-Type", "Content-Length", "Transfer-Encoding"} {
 			delHeader(k)
 		}
+	} else if !bodyAllowedForStatus(code) {
+		// Must not have body (1xx, 204).
+		// RFC 7230 section 3.3.2: "A server MUST NOT send a Content-Length header field
+		// in any response with a status code of 1xx (Informational) or 204 (No Content)"
+		for _, k := range []string{"Content-Length", "Transfer-Encoding"} {
+			delHeader(k)
+		}
 	} else {
 		// If no content type, apply sniffing algorithm to body.
 		_, haveType := header["Content-Type"]
@@ -394,7 +401,7 @@ func (cw *chunkWriter) writeHeader(p []byte) {
 
 	if w.req.Method == "HEAD" || code == bfe_http.StatusNotModified {
 		// do nothing
-	} else if code == bfe_http.StatusNoContent {
+	} else if !bodyAllowedForStatus(code) {
 		delHeader("Transfer-Encoding")
 	} else if hasCL {
 		delHeader("Transfer-Encoding")
